@@ -1,6 +1,7 @@
 package main
 
 import (
+	"errors"
 	"fmt"
 	"io"
 	"os"
@@ -14,11 +15,12 @@ import (
 // semantics.  It keeps the pre-image of the last write to each file so crash
 // images can be built, and counts open handles.
 type memFS struct {
-	mu    sync.Mutex
-	files map[string]*memFile
-	opens int
-	close int
-	noPre bool // do not keep pre-images (very large files)
+	failWrite, failSync bool // one-shot injected I/O errors (seg streams, op E)
+	mu                  sync.Mutex
+	files               map[string]*memFile
+	opens               int
+	close               int
+	noPre               bool // do not keep pre-images (very large files)
 }
 
 type memFile struct {
@@ -111,6 +113,10 @@ func (h *memHandle) ReadAt(p []byte, off int64) (int, error) {
 }
 
 func (h *memHandle) WriteAt(p []byte, off int64) (int, error) {
+	if h.fs.failWrite {
+		h.fs.failWrite = false
+		return 0, errors.New("injected write error")
+	}
 	h.f.mu.Lock()
 	defer h.f.mu.Unlock()
 	if !h.fs.noPre {
@@ -125,7 +131,13 @@ func (h *memHandle) WriteAt(p []byte, off int64) (int, error) {
 	return len(p), nil
 }
 
-func (h *memHandle) Sync() error { return nil }
+func (h *memHandle) Sync() error {
+	if h.fs.failSync {
+		h.fs.failSync = false
+		return errors.New("injected sync error")
+	}
+	return nil
+}
 
 func (h *memHandle) Close() error {
 	h.fs.mu.Lock()
